@@ -407,7 +407,8 @@ class LDMService:
         self,
         subscription_request: SubscribeDataobjectsReq,
         callback: Callable[[RequestDataObjectsResp], None],
-    ) -> int:
+        registered_only: bool = False,
+    ) -> int | None:
         # pylint: disable=too-many-arguments
         """
         Method as standarized in ETSI EN 302 895 V1.1.1 (2014-09). Section 6.3.4.
@@ -419,12 +420,18 @@ class LDMService:
             Subscription request object containing subscription details.
         callback: Callable[[RequestDataObjectsResp], None]
             callback function to be called when a notification is to be sent.
+        registered_only: bool
+            Store the subscription only if its consumer is (still) registered; the check and the
+            storing are one atomic step. Returns None when the consumer is not registered.
         """
         new_subscription = SubscriptionInfo(
             subscription_request=subscription_request,
             callback=callback,
         )
         with self._lock:
+            if registered_only and subscription_request.application_id not in self.data_consumer_its_aid:
+                # The consumer deregistered between the interface's validation and this call
+                return None
             self.subscriptions.append(new_subscription)
             self.last_checked_subscriptions_time[new_subscription] = (
                 TimestampIts.initialize_with_utc_timestamp_seconds()
